@@ -89,7 +89,7 @@ def floors(tier):
     q = tier == "quick"
     return {"schedules.single": 3000 if q else 100000, "points.in_shared_write_code": 300 if q else 5000, "b_ran_inside_a": 3000, "points.line": 2000,
             "points.instruction": 300, "shared_writers_discovered": 1, "nested.reentries": 200, "stress.runs": 200, "stress.overlapping_compiles": 1,
-            "schedules.double": 100 if q else 5000, "schedules.pingpong": 1000 if q else 50000, "pingpong.a_parked_in_shared_write_code": 300}
+            "schedules.budget_documents": 4, "nested.link_hook": 50, "schedules.double": 100 if q else 5000, "schedules.pingpong": 1000 if q else 50000, "pingpong.a_parked_in_shared_write_code": 300}
 
 
 _used = {}
@@ -114,7 +114,13 @@ _flood = [0]
 FLOOD_N = [300]
 
 
+SPARSE = "|" + "a|" * 256 + "\n|" + "-|" * 256 + "\n" + "|x|\n" * 140 + "\nafter *table*\n"
+
+
 def doc_text(doc):
+    if doc == "S":
+        # a table that auto-completes 35 700 cells: below the documented 65 536-cell budget alone, above it together with a second one
+        return SPARSE
     if doc == "FLOOD":
         # several hundred links never seen before: any bounded per-instance cache overflows while this call runs
         n = _flood[0]
@@ -136,9 +142,12 @@ _libdir = None
 class _Solo(dict):
     def __missing__(self, key):
         scn, api, d = key
+        sc = next(s for s in SCENARIOS if s["name"] == scn)
         if d == "FLOOD":
-            sc = next(s for s in SCENARIOS if s["name"] == scn)
             return do_call(C.build(sc["conf"]), api, d)   # not memoised: the text changes with every schedule
+        if d == "S":
+            self[key] = do_call(C.build(sc["conf"]), api, d)
+            return self[key]
         raise KeyError(key)
 
 
@@ -369,6 +378,19 @@ def nested_case(ctx, case):
                 inner()
                 return ""
             md.options["highlight"] = hl
+        elif kind == "link_hook":
+            # application override of the link validator that itself uses the parser (e.g. renders an audit note)
+            stock = md.validateLink
+
+            def vhook(url):
+                if not getattr(vhook, "busy", False):
+                    vhook.busy = True
+                    try:
+                        inner()
+                    finally:
+                        vhook.busy = False
+                return stock(url)
+            md.validateLink = vhook
         elif kind == "inline_rule":
             def irule(state, silent):
                 if state.src[state.pos] == "`" and not state.env.get("vf_inner") and state.env.get("vf_outer"):
@@ -390,6 +412,8 @@ def nested_case(ctx, case):
         env.pop("vf_inner", None)
         out.append((r, env, log))
     ctx.count("nested.reentries", len(out[0][2]))
+    if kind == "link_hook":
+        ctx.count("nested.link_hook", len(out[0][2]))
     if out[0][2]:
         ctx.nontrivial("nested", repr(case))
     if out[0] != out[1]:
@@ -485,7 +509,7 @@ def replay(ctx, case):
     if case.get("kind") == "stress":
         stress(ctx, 200, case.get("threads", 8))
         return
-    if case.get("kind") in ("core", "render_rule", "highlight", "inline_rule"):
+    if case.get("kind") in ("core", "render_rule", "highlight", "inline_rule", "link_hook"):
         nested_case(ctx, case)
         return
     sched = PingPong(_libdir, _fine)
@@ -574,6 +598,18 @@ def run(ctx):
                     check_case(ctx, sched, case)
                     if idx % 4001 == 0:
                         ctx.sample(dict(case, parked_at=sched.park_at.get("A")))
+        # document-wide budgets and counters (table auto-completion): two calls that each stay below the limit, together above it
+        sc = SCENARIOS[1]
+        calls = [("render", "S"), ("render", "S")]
+        total, _f = total_events(sched, sc, calls[0])
+        fr = (0.1, 0.35, 0.6, 0.85) if ctx.quick else tuple(x / 20 for x in range(1, 20))
+        for j, f in enumerate(fr):
+            idx += 1
+            if not ctx.mine(idx):
+                continue
+            ctx.count("schedules.budget_documents")
+            check_case(ctx, {"scenario": sc["name"], "calls": [list(c) for c in calls], "k1": max(1, int(total * f))})
+            check_case(ctx, {"mode": "pingpong", "scenario": sc["name"], "calls": [list(c) for c in calls], "k1": max(1, int(total * f)), "k2": max(1, int(total * (1 - f)))})
         mark("single")
         # two pre-emptions, concentrated on the first-use windows
         n2 = ctx.scale(2500, 200000)
@@ -596,7 +632,7 @@ def run(ctx):
         if sc.get("used"):
             continue   # plug-ins would accumulate on the long-lived instance
         for kind, extra in (("core", {"after": "block"}), ("core", {"after": "normalize"}), ("core", {"after": "inline"}), ("render_rule", {"token": "paragraph_open"}),
-                            ("render_rule", {"token": "text"}), ("highlight", {}), ("inline_rule", {})):
+                            ("render_rule", {"token": "text"}), ("highlight", {}), ("inline_rule", {}), ("link_hook", {})):
             for outer in ("A", "B", "C", "T"):
                 for inner in ("B", "I", "C"):
                     for inner_api in ("render", "parseInline", "parse"):
